@@ -12,16 +12,20 @@ DEV_WHAT = {
     "CvShadow": "HybridLogicalVector.UpdateHistory drops a version of the surviving vector's cv source that is newer than that cv "
                 "(both replicas already held the other's cv after opposite local-wins resolutions): the source's value is lowered",
 }
-MAX_HARD = 4       # distinct hard violations examined per run (each one costs a re-validation without the failing behaviour)
+MAX_HARD = int(os.environ.get("VERIF_C10_MAX_HARD", "3"))       # distinct hard violations examined per run (each costs a re-validation without the failing behaviour)
 
 
 def run(ctx):
     quick = ctx.quick()
     model_check(ctx, SPEC, "MC_HLV", "MC_HLV.cfg" if quick else "MC_HLV_thorough.cfg", timeout=3000)
     ctx.cov["exhaustive"] = True
-    behs = behaviours(ctx, SPEC, "MC_HLV", "Beh_HLV.cfg", timeout=1200)                       # all behaviours of a small instance
-    behs += behaviours(ctx, SPEC, "MC_HLV", "Sim_HLV.cfg", num=400 if quick else 6000, depth=14, timeout=1200)
-    uni = behaviours(ctx, SPEC, "MC_HLV", "Uni_HLV.cfg", tagname="UNI")                       # whole codec universe
+    # one run exports every behaviour of the small instance (BEH) and the whole codec universe (UNI)
+    behs, uni = export(ctx, "Beh_HLV.cfg" if quick else "Beh_HLV_thorough.cfg", None, None, ("BEH", "UNI"))
+    sim, = export(ctx, "Sim_HLV.cfg", 100 if quick else 1500, 14, ("BEH",))
+    cap = 400 if quick else 6000       # -simulate also prints the siblings of every final step: thin them out evenly
+    behs += sim[::max(1, len(sim) // cap)][:cap]
+    if not uni:
+        raise Inconclusive("codec universe not exported")
     replay_and_validate(ctx, behs, uni)
     ctx.cov["rule"] = ("behaviours = every history of 5 edit/pull/resolve events over three replicas (replicas activated in a fixed order, names bound to "
                        "source ids by a seeded permutation) plus seeded TLC simulations of 12 events; non-trivial = contains a pull the real "
@@ -33,6 +37,30 @@ def run(ctx):
                         "resolve*HLV helpers are replayed as their vector-API call sequence (no document / rev tree)",
                         "pv compaction (Compact, only above 5 pv sources and a configured pruning window) is outside the 3-source universe",
                         "named deviation D1 (both sides already hold the other's cv): the 'already known' clause is not evaluated, see NOTES.md"]
+
+
+def export(ctx, cfg, num, depth, tags):
+    """like core.behaviours, for several PrintT tags of one TLC run"""
+    if num is None:
+        r = tlc(ctx, SPEC, "MC_HLV", cfg, timeout=2400, workers=1)
+    else:
+        r = tlc(ctx, SPEC, "MC_HLV", cfg, mode="simulate", simulate=num, depth=depth, timeout=2400)
+    if r.inv_violated:
+        raise Inconclusive("behaviour generation MC_HLV/%s violated %s" % (cfg, r.inv_violated))
+    res = []
+    for tag in tags:
+        seen, lst = set(), []
+        for t, txt in r.printed:
+            if t == tag:
+                js = json.loads(txt)
+                if js not in seen:
+                    seen.add(js)
+                    lst.append(json.loads(js))
+        res.append(lst)
+    if not res[0]:
+        raise Inconclusive("no behaviours exported by MC_HLV/%s\n%s" % (cfg, r.out[-800:]))
+    log("  TLC %-28s %-22s exported %s  %.1fs" % ("MC_HLV", cfg, ", ".join("%d %s" % (len(l), t) for l, t in zip(res, tags)), r.wall))
+    return res
 
 
 def replay_and_validate(ctx, behs, uni):
